@@ -619,32 +619,75 @@ fn gen_violating(rng: &mut Rng, which: usize) -> ClassFile {
 	ClassFile { minor_version: 0, major_version: 52, constant_pool: p.e, access_flags: 0, this_class: 0, super_class: 0, interfaces: vec![], fields: vec![], methods: vec![], attributes: vec![attr] }
 }
 
+/// deterministic byte-level edits of a small written file, one per reader branch that random mutation rarely reaches
+fn crafted() -> Vec<(String, Vec<u8>)> {
+	let mut out = vec![];
+	let mut p = Pool::default();
+	let sig = p.utf8("Signature");
+	let exc = p.utf8("Exceptions");
+	let cls = p.class("A");
+	let other = p.utf8("Whatever");
+	let mk = |attrs: Vec<AttributeInfo>, pool: &Pool| ClassFile { minor_version: 0, major_version: 52, constant_pool: pool.e.clone(), access_flags: 0x21, this_class: cls, super_class: 0,
+		interfaces: vec![], fields: vec![], methods: vec![], attributes: attrs }.to_bytes();
+	let base = mk(vec![AttributeInfo::Signature { attribute_name_index: sig, signature_index: 1 }], &p);
+	let n = base.len();
+	out.push(("unchanged".to_string(), base.clone()));
+	let patch = |at: usize, v: &[u8], what: &str, out: &mut Vec<(String, Vec<u8>)>, base: &Vec<u8>| { let mut b = base.clone(); b[at..at + v.len()].copy_from_slice(v); out.push((what.to_string(), b)); };
+	patch(0, &[0xCA, 0xFE, 0xBA, 0xBF], "magic off by one", &mut out, &base);
+	patch(8, &[0, 0], "constant_pool_count 0 (u16 underflow in the length expression)", &mut out, &base);
+	patch(8, &[0, 1], "constant_pool_count 1 (empty pool, entries become garbage)", &mut out, &base);
+	patch(8, &[0xFF, 0xFF], "constant_pool_count 65535", &mut out, &base);
+	patch(n - 6, &[0, 0, 0, 3], "literal attribute_length 3 for Signature", &mut out, &base);
+	patch(n - 6, &[0, 0, 0, 0], "literal attribute_length 0 for Signature", &mut out, &base);
+	patch(n - 8, &[0, 0], "attribute_name_index 0 (u16 underflow in pool_has_utf8)", &mut out, &base);
+	patch(n - 8, &(cls.to_be_bytes()), "attribute_name_index designates a Class entry", &mut out, &base);
+	patch(n - 8, &[0x7F, 0xFF], "attribute_name_index past the pool", &mut out, &base);
+	patch(n - 8, &(other.to_be_bytes()), "attribute name unknown: read as Other with the same bytes", &mut out, &base);
+	patch(n - 10, &[0xFF, 0xFF], "attributes_count 65535", &mut out, &base);
+	let mut t = base.clone(); t.extend([1, 2, 3]); out.push(("three trailing bytes".into(), t));
+	for k in 0..n { out.push((format!("truncated to {k} bytes"), base[..k].to_vec())); }
+	// a computed attribute_length that disagrees with the structure: the reader never looks at it
+	let b2 = mk(vec![AttributeInfo::Exceptions { attribute_name_index: exc, exception_index_table: vec![cls, cls] }], &p);
+	let m = b2.len();
+	out.push(("Exceptions unchanged".into(), b2.clone()));
+	patch(m - 10, &[0, 0, 0, 7], "computed attribute_length 7 instead of 6 for Exceptions", &mut out, &b2);
+	patch(m - 10, &[0xFF, 0, 0, 6], "computed attribute_length huge for Exceptions", &mut out, &b2);
+	patch(m - 6, &[0xFF, 0xFF], "number_of_exceptions 65535", &mut out, &b2);
+	let b3 = mk(vec![AttributeInfo::Other { attribute_name_index: other, info: vec![9, 9, 9] }], &p);
+	let m3 = b3.len();
+	patch(m3 - 7, &[0, 0xFF, 0xFF, 0xFF], "unknown attribute announcing 16 MiB of info", &mut out, &b3);
+	patch(m3 - 7, &[0, 0, 0, 2], "unknown attribute one byte shorter than its info (trailing byte)", &mut out, &b3);
+	out
+}
+
 pub fn run(ctx: &Ctx) -> anyhow::Result<Report> {
 	let mut r = Report::new("C20", "C20.Run");
-	r.shard_size = 40;
 	let mut rng = Rng::new(ctx.seed);
-	r.rule = "streams: corpus (javac 17 --release 8/11/17 classes vendored under corpus/C20, read + rewritten); raw (random raw ClassFile values over every struct/enum/variant the crate declares, attribute names interned so that tags resolve: inside the hypotheses of read_write); raw-wide (same with Long/Double pool entries); valid (small semantically valid classes, also cross-read by duke::read_class and compared with the generator's ground truth); violating (one sub-stream per hypothesis of read_write: frame tags resolving elsewhere, u8 tag overflow, attribute names designating another/no name, count wider than its field); written (bytes the crate wrote, read as input); mutated (1-3 byte edits/truncations of corpus and written files). Oracle on the implementation alone: length()==bytes written, write()==to_bytes(), read(to_bytes(v))==v, files accepted by an independent strict JVMS walker are reproduced byte for byte and files the crate writes are accepted by it. Non-trivial: non-empty pool or attributes / more than 24 bytes; distinct by Debug text or bytes.".into();
-	let (n_raw, n_valid, n_viol, n_mut) = if ctx.thorough { (1500, 500, 180, 1500) } else { (170, 60, 36, 160) };
+	r.rule = "streams: corpus (javac 17 --release 8/11/17 classes vendored under corpus/C20, read + rewritten); raw (random raw ClassFile values over every struct/enum/variant the crate declares, attribute names interned so that tags resolve: inside the hypotheses of read_write); raw-wide (same with Long/Double pool entries); valid (small semantically valid classes, also cross-read by duke::read_class and compared with the generator's ground truth); violating (one sub-stream per hypothesis of read_write: frame tags resolving elsewhere, u8 tag overflow, attribute names designating another/no name, count wider than its field); written (bytes the crate wrote, read as input); crafted (deterministic edits: wrong magic, pool count 0/1/65535, literal and computed attribute_length off, name index 0 / not Utf8 / past the pool / unknown name, giant counts, every truncation, trailing bytes); mutated (1-3 byte edits/truncations of corpus and written files). Oracle on the implementation alone: length()==bytes written, write()==to_bytes(), read(to_bytes(v))==v, files accepted by an independent strict JVMS walker are reproduced byte for byte and files the crate writes are accepted by it. Non-trivial: non-empty pool or attributes / more than 24 bytes; distinct by Debug text or bytes.".into();
+	let (n_raw, n_valid, n_viol, n_mut) = if ctx.thorough { (3000, 900, 270, 3000) } else { (320, 100, 54, 300) };
+	r.shard_size = if ctx.thorough { 170 } else { 62 };
 
 	// replay of a single file: a class file (binary) given on the command line
 	if let Some(p) = &ctx.replay { if let Ok(b) = std::fs::read(p) { through_bytes(&mut r, "replay", &b, &p.display().to_string(), true); } }
 
-	// 1 corpus
+	// 1 corpus (its cases are spread over the shards: they are the largest ones)
 	let corpus = corpus_files();
 	r.notes.push(format!("corpus: {} class files", corpus.len()));
 	let mut seeds: Vec<Vec<u8>> = vec![];
-	for (name, b) in &corpus {
-		through_bytes(&mut r, "corpus", b, name, b.len() <= 1400);
-		if b.len() <= 700 { seeds.push(b.clone()); }
-	}
+	let mut pending: Vec<(String, Vec<u8>)> = corpus.clone();
+	for (_, b) in &corpus { if b.len() <= 700 { seeds.push(b.clone()); } }
 	// the fixture of the crate's own test
 	if let Ok(b) = std::fs::read(std::path::Path::new(&std::env::var("VERIF_REPO").unwrap_or("/repo".into())).join("raw_class_file/tests/simple_expected.class")) {
-		through_bytes(&mut r, "corpus", &b, "raw_class_file/tests/simple_expected.class", true);
+		pending.push(("raw_class_file/tests/simple_expected.class".into(), b.clone()));
 		seeds.push(b);
 	}
+	pending.reverse();
+	let corpus_limit = if ctx.thorough { 4000 } else { 1300 };
+	let every = (n_raw / (pending.len() + 1)).max(1);
 
 	// 2 raw values
 	for i in 0..n_raw {
+		if i % every == 0 { if let Some((name, b)) = pending.pop() { through_bytes(&mut r, "corpus", &b, &name, b.len() <= corpus_limit); } }
 		let wide = i % 5 == 4;
 		let c = gen_raw(&mut rng, wide);
 		if let Some(b) = through_value(&mut r, if wide { "raw-wide" } else { "raw" }, &c, Some(true), true) {
@@ -652,6 +695,7 @@ pub fn run(ctx: &Ctx) -> anyhow::Result<Report> {
 			if i % 4 == 0 { through_bytes(&mut r, "written", &b, "bytes written by the crate", true); if b.len() <= 500 { seeds.push(b); } }
 		}
 	}
+	while let Some((name, b)) = pending.pop() { through_bytes(&mut r, "corpus", &b, &name, b.len() <= corpus_limit); }
 	// 3 valid classes, cross-read by duke
 	for _ in 0..n_valid {
 		let (c, f) = gen_valid(&mut rng);
@@ -682,7 +726,8 @@ pub fn run(ctx: &Ctx) -> anyhow::Result<Report> {
 		let c = gen_violating(&mut rng, which);
 		through_value(&mut r, &format!("violating-{which}"), &c, Some(false), true);
 	}
-	// 5 malformed
+	// 5 crafted edits, then random mutations
+	for (what, b) in crafted() { through_bytes(&mut r, "crafted", &b, &what, true); }
 	for i in 0..n_mut {
 		let mut b = seeds[rng.below(seeds.len())].clone();
 		for _ in 0..rng.range(1, 3) { mutate(&mut rng, &mut b); }
